@@ -31,6 +31,14 @@ package main
 // cannot greet a peer that already left); the quiet class and all raw-author
 // classes are loss-free.
 //
+// Every round runs in a child process of its own (c10_wsflood.go): a panic in a
+// goroutine of the client library ends that process, the stage attributes it to
+// the journalled episodes in flight and still writes its report. The same file
+// holds the flood rounds: bursts of 330-480 routable envelopes from one author
+// goroutine with more than 256 outstanding in the client (stalled or merely
+// slower link), authors that linger until everything has arrived – "never
+// reordered" judged at every staying member.
+//
 // Flow control is by counting (peer_left envelopes, wave markers), never by
 // time: at most c10wWaveBudget author messages + noise are in flight per
 // session, well below the server's per-peer channel of 256.
@@ -98,7 +106,9 @@ type c10wEpisode struct {
 	Seed uint64 `json:"seed"`
 }
 
-func (ep *c10wEpisode) id() string { return fmt.Sprintf("r%d-s%d-w%d-k%d", ep.Round, ep.Sess, ep.Wave, ep.K) }
+func (ep *c10wEpisode) id() string {
+	return fmt.Sprintf("r%d-s%d-w%d-k%d", ep.Round, ep.Sess, ep.Wave, ep.K)
+}
 
 type c10wSend struct {
 	G         uint64        `json:"g"`
@@ -158,6 +168,11 @@ type c10wConn struct {
 	sends      []c10wSend
 	closed     atomic.Bool
 	CloseStart time.Duration
+
+	// flood bursts: envelopes accepted by Send and not yet written to the TCP connection (largest value seen /
+	// value when the stalled link was released)
+	FloodMaxOut    int
+	FloodAtRelease int
 }
 
 func (c *c10wConn) appendRecv(rec c10wRecv) {
@@ -249,14 +264,15 @@ type c10wRound struct {
 
 	sess []*c10wSess
 
-	mu        sync.Mutex
-	conns     []*c10wConn
-	expLeft   []map[string]int // per session: author id -> upgraded connections so far
-	authorUps int
-	episodes  []*c10wEpisode
-	notes     []string
-	broken    atomic.Bool // a watchdog expired: remaining waves are skipped, no-loss is not judged
-	settled   bool
+	mu            sync.Mutex
+	conns         []*c10wConn
+	expLeft       []map[string]int // per session: author id -> upgraded connections so far
+	authorUps     int
+	episodes      []*c10wEpisode
+	notes         []string
+	broken        atomic.Bool // a watchdog expired: remaining waves are skipped, no-loss is not judged
+	lingerExpired atomic.Int32
+	settled       bool
 
 	gid atomic.Uint64
 }
@@ -592,7 +608,11 @@ func (rd *c10wRound) runEpisode(ep *c10wEpisode) {
 			if burst != nil {
 				// flood: until every message of the burst is at every staying destination – order is judged on
 				// what arrived, and nothing is outstanding in the client when Close is called
-				c10wWait(func() bool {
+				lw := c10wLingerWait
+				if rd.lingerExpired.Load() >= 2 {
+					lw = time.Second // (a tree that loses or misroutes messages: do not spend the full watchdog on every episode)
+				}
+				if !c10wWait(func() bool {
 					for i := range burst {
 						for _, m := range stay {
 							if burst[i].Accepted && (burst[i].To == "" || burst[i].To == m.PeerID) && !m.hasG(burst[i].G) {
@@ -601,7 +621,9 @@ func (rd *c10wRound) runEpisode(ep *c10wEpisode) {
 						}
 					}
 					return true
-				}, c10wLingerWait)
+				}, lw) {
+					rd.lingerExpired.Add(1)
+				}
 			} else if tail != nil {
 				c10wWait(func() bool {
 					for _, m := range stay {
@@ -855,18 +877,47 @@ func (rd *c10wRound) markers(s, wave int, kind string) bool {
 
 type c10wAgg struct {
 	mu         sync.Mutex
-	rounds     int
-	settled    int
-	episodes   map[string]int // layer|leave|burst class
-	conns      int
-	accepted   int
-	checked    int
-	judged     map[string]int // no-loss judged (message, staying recipient) pairs by author layer|leave|kind|recipient layer
-	tails      map[string]int // of those: last message of a burst, by author layer|leave
-	notJudged  map[string]int
-	serverEnvs map[string]int
-	notFound   int
-	lost       int
+	Rounds     int            `json:"rounds"`
+	Settled    int            `json:"settled"`
+	Episodes   map[string]int `json:"episodes"` // layer|leave|burst class
+	Conns      int            `json:"conns"`
+	Accepted   int            `json:"accepted"`
+	Checked    int            `json:"checked"`
+	Judged     map[string]int `json:"judged"` // no-loss judged (message, staying recipient) pairs by author layer|leave|kind|recipient layer
+	Tails      map[string]int `json:"tails"`  // of those: last message of a burst, by author layer|leave
+	NotJudged  map[string]int `json:"not_judged"`
+	ServerEnvs map[string]int `json:"server_envs"`
+	NotFound   int            `json:"not_found"`
+	Lost       int            `json:"lost"`
+	// flood bursts (more envelopes outstanding than the client queue holds)
+	FloodEpisodes map[string]int `json:"flood_episodes"` // author layer|link|exceeded or not-exceeded
+	FloodOrder    map[string]int `json:"flood_order"`    // delivered envelopes of flood bursts whose per-connection order was checked: layer|link|exceeded?|read-by-layer
+	FloodMaxOut   int            `json:"flood_max_outstanding"`
+}
+
+func newC10wAgg() *c10wAgg {
+	return &c10wAgg{Episodes: map[string]int{}, Judged: map[string]int{}, Tails: map[string]int{}, NotJudged: map[string]int{}, ServerEnvs: map[string]int{},
+		FloodEpisodes: map[string]int{}, FloodOrder: map[string]int{}}
+}
+
+// merge adds o to a (a.mu held by the caller or a private).
+func (a *c10wAgg) merge(o *c10wAgg) {
+	a.Rounds += o.Rounds
+	a.Settled += o.Settled
+	a.Conns += o.Conns
+	a.Accepted += o.Accepted
+	a.Checked += o.Checked
+	a.NotFound += o.NotFound
+	a.Lost += o.Lost
+	if o.FloodMaxOut > a.FloodMaxOut {
+		a.FloodMaxOut = o.FloodMaxOut
+	}
+	for _, pr := range []struct{ dst, src map[string]int }{{a.Episodes, o.Episodes}, {a.Judged, o.Judged}, {a.Tails, o.Tails}, {a.NotJudged, o.NotJudged},
+		{a.ServerEnvs, o.ServerEnvs}, {a.FloodEpisodes, o.FloodEpisodes}, {a.FloodOrder, o.FloodOrder}} {
+		for k, v := range pr.src {
+			pr.dst[k] += v
+		}
+	}
 }
 
 func c10wRunRound(e *Env, cfg c10wRoundCfg, agg *c10wAgg) {
@@ -998,13 +1049,27 @@ func c10wJudge(rd *c10wRound, agg *c10wAgg, endT time.Duration) {
 		}
 		return m
 	}
-	local := &c10wAgg{episodes: map[string]int{}, judged: map[string]int{}, tails: map[string]int{}, notJudged: map[string]int{}, serverEnvs: map[string]int{}}
+	local := newC10wAgg()
+	floodOf := func(a *c10wConn) (bool, string) {
+		if a.Ep == nil || !strings.HasPrefix(a.Ep.BurstClass, "flood") {
+			return false, ""
+		}
+		ex := "not-exceeded"
+		if a.FloodMaxOut > c10wClientQueue {
+			ex = "exceeded"
+		}
+		link := a.Ep.Link
+		if link == "" {
+			link = "no-client-queue"
+		}
+		return true, a.Ep.Layer + "|" + link + "|" + ex
+	}
 
 	for _, rc := range conns {
 		if !rc.DialOK {
 			continue
 		}
-		local.conns++
+		local.Conns++
 		seen := map[uint64]bool{}
 		lastN := map[int]int{}
 		errsFor := map[string]int{}
@@ -1029,12 +1094,12 @@ func c10wJudge(rd *c10wRound, agg *c10wAgg, endT time.Duration) {
 					e.R.Violate("unattributable-envelope", "a client received an envelope that neither the server nor any harness client authored", caseOf(rc, nil, rec), nil)
 					continue
 				}
-				local.serverEnvs[env.Type]++
+				local.ServerEnvs[env.Type]++
 				if env.Type == protocol.TypeError {
 					var pe protocol.Error
 					_ = env.DecodePayload(&pe)
 					if pe.Code == "peer_not_found" {
-						local.notFound++
+						local.NotFound++
 						to := strings.TrimPrefix(pe.Message, "target peer not found: ")
 						errsFor[to]++
 						if errsFor[to] > sendsTo[to] {
@@ -1051,7 +1116,7 @@ func c10wJudge(rd *c10wRound, agg *c10wAgg, endT time.Duration) {
 			}
 			a := conns[s.A]
 			al, leave, _ := epOf(a)
-			local.checked++
+			local.Checked++
 			if !s.Routable {
 				e.R.Count("diag_invalid_input_forwarded") // not forbidden by the property; still checked below
 			}
@@ -1082,9 +1147,20 @@ func c10wJudge(rd *c10wRound, agg *c10wAgg, endT time.Duration) {
 			if seen[p.G] {
 				e.R.Violate("duplicate:"+s.Kind+":via-"+al+":read-by-"+rc.Layer, "the same message was delivered twice to one connection", caseOf(rc, s, rec), nil)
 			} else if p.N <= lastN[s.A] {
-				e.R.Violate("reorder:"+s.Kind+":via-"+al+":read-by-"+rc.Layer, fmt.Sprintf("message n=%d of connection %d arrived after n=%d", p.N, s.A, lastN[s.A]), caseOf(rc, s, rec), nil)
+				key := "reorder:" + s.Kind + ":via-" + al + ":read-by-" + rc.Layer
+				var det any
+				if a.Ep != nil && strings.HasPrefix(a.Ep.BurstClass, "flood") {
+					key += ":burst-" + a.Ep.BurstClass
+					det = map[string]any{"max_envelopes_accepted_and_not_yet_written_by_the_client": a.FloodMaxOut, "client_queue": c10wClientQueue,
+						"accepted_when_the_link_was_released": a.FloodAtRelease}
+				}
+				e.R.Violate(key, fmt.Sprintf("message n=%d of connection %d arrived after n=%d (one author goroutine called Send in the order of n)", p.N, s.A, lastN[s.A]), caseOf(rc, s, rec), det)
 			} else {
 				lastN[s.A] = p.N
+			}
+			if fl, fk := floodOf(a); fl {
+				local.FloodOrder[fk+"|read-by-"+rc.Layer]++
+				e.R.Distinct(fmt.Sprintf("order|via-%s|%s|%s|read-by-%s", al, a.Ep.BurstClass, s.Kind, rc.Layer))
 			}
 			seen[p.G] = true
 			if p != s.Pay || env.Type != s.Type {
@@ -1104,14 +1180,20 @@ func c10wJudge(rd *c10wRound, agg *c10wAgg, endT time.Duration) {
 		}
 		al, leave, bc := epOf(a)
 		if a.Ep != nil && a.Part == 0 {
-			local.episodes[al+"|"+leave+"|"+bc]++
+			local.Episodes[al+"|"+leave+"|"+bc]++
+		}
+		if fl, fk := floodOf(a); fl {
+			local.FloodEpisodes[fk]++
+			if a.FloodMaxOut > local.FloodMaxOut {
+				local.FloodMaxOut = a.FloodMaxOut
+			}
 		}
 		for i := range a.sends {
 			s := &a.sends[i]
 			if !s.Accepted {
 				continue
 			}
-			local.accepted++
+			local.Accepted++
 			if s.Kind == "barrier" || !s.Routable {
 				continue
 			}
@@ -1121,22 +1203,22 @@ func c10wJudge(rd *c10wRound, agg *c10wAgg, endT time.Duration) {
 				}
 				cls := fmt.Sprintf("%s|%s|%s|read-by-%s", al, leave, s.Kind, m.Layer)
 				if !rd.settled {
-					local.notJudged["round-unsettled"]++
+					local.NotJudged["round-unsettled"]++
 					continue
 				}
 				if re := m.readEndAt(); re > 0 && re < endT {
-					local.notJudged["recipient-read-ended"]++
+					local.NotJudged["recipient-read-ended"]++
 					continue
 				}
-				local.judged[cls]++
+				local.Judged[cls]++
 				if s.Tail {
-					local.tails[al+"|"+leave]++
+					local.Tails[al+"|"+leave]++
 				}
 				if m.hasG(s.G) {
 					e.R.Distinct("no-loss|" + cls + "|burst:" + bc)
 					continue
 				}
-				local.lost++
+				local.Lost++
 				later := 0
 				for j := i + 1; j < len(a.sends); j++ {
 					if a.sends[j].Accepted && m.hasG(a.sends[j].G) {
@@ -1161,39 +1243,20 @@ func c10wJudge(rd *c10wRound, agg *c10wAgg, endT time.Duration) {
 		}
 	}
 
+	local.Rounds = 1
+	if rd.settled {
+		local.Settled = 1
+	}
 	agg.mu.Lock()
 	defer agg.mu.Unlock()
-	agg.rounds++
-	if rd.settled {
-		agg.settled++
-	}
-	agg.conns += local.conns
-	agg.accepted += local.accepted
-	agg.checked += local.checked
-	agg.notFound += local.notFound
-	agg.lost += local.lost
-	for k, v := range local.episodes {
-		agg.episodes[k] += v
-	}
-	for k, v := range local.judged {
-		agg.judged[k] += v
-	}
-	for k, v := range local.tails {
-		agg.tails[k] += v
-	}
-	for k, v := range local.notJudged {
-		agg.notJudged[k] += v
-	}
-	for k, v := range local.serverEnvs {
-		agg.serverEnvs[k] += v
-	}
+	agg.merge(local)
 	nj := 0
-	for _, v := range local.judged {
+	for _, v := range local.Judged {
 		nj += v
 	}
-	e.R.EvalN(local.checked)
-	e.R.Sample(map[string]any{"stage": "wsclient", "round": rd.cfg, "settled": rd.settled, "connections": local.conns, "episodes": local.episodes,
-		"messages_accepted": local.accepted, "envelopes_checked": local.checked, "no_loss_pairs_judged": nj, "first_episode": firstEpisode(rd)})
+	e.R.EvalN(local.Checked)
+	e.R.Sample(map[string]any{"stage": "wsclient", "round": rd.cfg, "settled": rd.settled, "connections": local.Conns, "episodes": local.Episodes,
+		"messages_accepted": local.Accepted, "envelopes_checked": local.Checked, "no_loss_pairs_judged": nj, "first_episode": firstEpisode(rd)})
 	_ = endT
 }
 
@@ -1208,14 +1271,21 @@ func firstEpisode(rd *c10wRound) any {
 
 func runC10WS(e *Env) {
 	r := vk.NewRng(e.Seed ^ vk.HashStr("c10ws"+e.Tier))
-	e.R.Rule = "one case = a send-then-leave episode against the real thruserv: an author connects (real internal/wsclient Dial+ReadLoop+Send+Close, or a raw socket), sends a burst (single / few / many / more than the client queue) of addressed / broadcast / spoofed-header envelopes and leaves at once (close-now, yield-close, reconnect under the same id, linger as control; raw: abrupt close / close frame) while staying members (raw readers and readers through the real wsclient.ReadLoop) keep reading and send noise; an envelope counts when it was delivered and checked against the author's send log – distinct by (author layer, leave mode, kind, addressee relation, from class, session_id class, reader layer) – and a (message, staying recipient) pair counts when no-loss was judged for it after the round settled – distinct by (author layer, leave mode, kind, reader layer, burst class)"
+	e.R.Rule = "one case = a send-then-leave episode against the real thruserv: an author connects (real internal/wsclient Dial+ReadLoop+Send+Close, or a raw socket), sends a burst (single / few / many / more than the client queue; flood: 330-480 routable envelopes from one goroutine while the client's link is stalled or simply slower than the author, so that more than 256 are outstanding in the client) of addressed / broadcast / spoofed-header envelopes and leaves at once (close-now, yield-close, reconnect under the same id, linger as control; raw: abrupt close / close frame) while staying members (raw readers and readers through the real wsclient.ReadLoop) keep reading and send noise; an envelope counts when it was delivered and checked against the author's send log (routing, true sender, no duplicate, per-connection order) – distinct by (author layer, leave mode, kind, addressee relation, from class, session_id class, reader layer) – and a (message, staying recipient) pair counts when no-loss was judged for it after the round settled – distinct by (author layer, leave mode, kind, reader layer, burst class)"
 	rounds := e.Pick(6, 24)
-	cfgs := make([]c10wRoundCfg, rounds)
+	floods := e.Pick(3, 8)
+	cfgs := make([]c10wRoundCfg, rounds, rounds+floods)
 	for i := range cfgs {
 		cfgs[i] = c10wRoundCfg{Round: i, Seed: r.U64(), Sessions: 2 + i%2, Waves: e.Pick(12, 40), Slots: 3 + i%2}
 	}
-	agg := &c10wAgg{episodes: map[string]int{}, judged: map[string]int{}, tails: map[string]int{}, notJudged: map[string]int{}, serverEnvs: map[string]int{}}
-	vk.ParallelDo(rounds, e.Pick(3, 4), func(i int) { c10wRunRound(e, cfgs[i], agg) })
+	for i := 0; i < floods; i++ {
+		cfgs = append(cfgs, c10wRoundCfg{Round: rounds + i, Seed: r.U64(), Sessions: 2, Waves: e.Pick(8, 20), Slots: 3, Flood: true})
+	}
+	// every round runs in a child process of its own: the judged client library starts goroutines of its own,
+	// and a panic there cannot be recovered by the harness; the child journals every episode it begins / ends
+	agg := newC10wAgg()
+	crashed := c10wRunRoundsInChildren(e, cfgs, agg)
+	rounds += floods
 
 	sum := func(m map[string]int, pred func(string) bool) int {
 		n := 0
@@ -1227,20 +1297,20 @@ func runC10WS(e *Env) {
 		return n
 	}
 	has := func(sub string) func(string) bool { return func(k string) bool { return strings.Contains(k, sub) } }
-	e.R.SetExtra("rounds_judged", agg.rounds)
-	e.R.SetExtra("rounds_settled", agg.settled)
-	e.R.SetExtra("connections", agg.conns)
-	e.R.SetExtra("episodes_by_layer_leave_burst", agg.episodes)
-	e.R.SetExtra("messages_accepted", agg.accepted)
-	e.R.SetExtra("envelopes_delivered_and_checked", agg.checked)
-	e.R.SetExtra("no_loss_pairs_judged_by_author_leave_kind_reader", agg.judged)
-	e.R.SetExtra("no_loss_tail_messages_judged_by_author_leave", agg.tails)
-	e.R.SetExtra("no_loss_pairs_not_judged", agg.notJudged)
-	e.R.SetExtra("no_loss_pairs_lost", agg.lost)
-	e.R.SetExtra("server_envelopes_seen", agg.serverEnvs)
-	e.R.SetExtra("peer_not_found_seen", agg.notFound)
+	e.R.SetExtra("rounds_judged", agg.Rounds)
+	e.R.SetExtra("rounds_settled", agg.Settled)
+	e.R.SetExtra("connections", agg.Conns)
+	e.R.SetExtra("episodes_by_layer_leave_burst", agg.Episodes)
+	e.R.SetExtra("messages_accepted", agg.Accepted)
+	e.R.SetExtra("envelopes_delivered_and_checked", agg.Checked)
+	e.R.SetExtra("no_loss_pairs_judged_by_author_leave_kind_reader", agg.Judged)
+	e.R.SetExtra("no_loss_tail_messages_judged_by_author_leave", agg.Tails)
+	e.R.SetExtra("no_loss_pairs_not_judged", agg.NotJudged)
+	e.R.SetExtra("no_loss_pairs_lost", agg.Lost)
+	e.R.SetExtra("server_envelopes_seen", agg.ServerEnvs)
+	e.R.SetExtra("peer_not_found_seen", agg.NotFound)
 
-	e.R.Require(agg.settled >= (rounds*2+2)/3, fmt.Sprintf("only %d of %d send-then-leave rounds settled", agg.settled, rounds))
+	e.R.Require(agg.Settled >= (rounds*2+2)/3, fmt.Sprintf("only %d of %d send-then-leave rounds settled", agg.Settled, rounds))
 	for _, cls := range []string{"wsclient|close-now|inbound-quiet", "wsclient|close-now|inbound-busy-greeted", "wsclient|close-now|inbound-busy-ungreeted",
 		"wsclient|yield-close|inbound-quiet", "wsclient|yield-close|inbound-busy-greeted", "wsclient|reconnect|inbound-busy-greeted",
 		"wsclient|linger|inbound-quiet", "wsclient|linger|inbound-busy-greeted",
@@ -1250,13 +1320,29 @@ func runC10WS(e *Env) {
 		if strings.Contains(cls, "yield-close") || strings.Contains(cls, "linger") || strings.Contains(cls, "ungreeted") {
 			min = e.Pick(12, 100)
 		}
-		n := sum(agg.judged, func(k string) bool { return strings.HasPrefix(k, cls+"|") })
+		n := sum(agg.Judged, func(k string) bool { return strings.HasPrefix(k, cls+"|") })
 		e.R.Require(n >= min, fmt.Sprintf("only %d (message, staying recipient) pairs of class %q were judged for no-loss", n, cls))
-		t := agg.tails[cls]
+		t := agg.Tails[cls]
 		e.R.Require(t >= min/4, fmt.Sprintf("only %d last-of-burst messages of class %q were judged for no-loss", t, cls))
 	}
-	e.R.Require(sum(agg.judged, has("read-by-wsclient")) >= e.Pick(200, 2000), "too few no-loss pairs whose recipient reads through wsclient.ReadLoop")
-	e.R.Require(sum(agg.episodes, has("|single")) >= e.Pick(20, 150) && sum(agg.episodes, has("|many")) >= e.Pick(20, 150),
+	e.R.Require(sum(agg.Judged, has("read-by-wsclient")) >= e.Pick(200, 2000), "too few no-loss pairs whose recipient reads through wsclient.ReadLoop")
+	e.R.Require(sum(agg.Episodes, has("|single")) >= e.Pick(20, 150) && sum(agg.Episodes, has("|many")) >= e.Pick(20, 150),
 		"too few single-message or long-burst episodes")
-	e.R.Require(sum(agg.episodes, has("|overflow")) >= 1, "no episode with more messages than the client send queue ran")
+	e.R.Require(sum(agg.Episodes, has("|overflow")) >= 1, "no episode with more messages than the client send queue ran")
+
+	// flood bursts: per-connection order judged at staying members for authors through the real wsclient that had
+	// more envelopes outstanding than the client queue holds
+	e.R.SetExtra("round_processes", map[string]any{"started": len(cfgs), "died_or_without_report": crashed})
+	e.R.SetExtra("flood_episodes_by_layer_link_queue_exceeded", agg.FloodEpisodes)
+	e.R.SetExtra("flood_envelopes_order_checked_by_layer_link_queue_exceeded_reader", agg.FloodOrder)
+	e.R.SetExtra("flood_max_envelopes_accepted_and_not_yet_written_by_the_client", agg.FloodMaxOut)
+	e.R.Require(crashed == 0, fmt.Sprintf("%d round processes died or wrote no report", crashed))
+	e.R.Require(agg.FloodEpisodes["wsclient|stalled|exceeded"] >= e.Pick(8, 40),
+		fmt.Sprintf("only %d stalled-link flood episodes through wsclient had more than %d envelopes outstanding in the client", agg.FloodEpisodes["wsclient|stalled|exceeded"], c10wClientQueue))
+	e.R.Require(sum(agg.FloodEpisodes, has("wsclient|free|")) >= e.Pick(3, 15), "too few free-link flood episodes through wsclient")
+	for _, rl := range []string{"raw", "wsclient"} {
+		n := agg.FloodOrder["wsclient|stalled|exceeded|read-by-"+rl]
+		e.R.Require(n >= e.Pick(800, 4000), fmt.Sprintf("only %d envelopes of queue-exceeding bursts were order-checked at staying members reading through %s", n, rl))
+	}
+	e.R.Require(sum(agg.Judged, has("wsclient|linger|inbound-quiet|")) >= 1 && sum(agg.Episodes, has("|flood-stalled")) >= 1, "no flood episode was judged for no-loss")
 }
